@@ -153,8 +153,13 @@ func genExpSpec() *rapid.Generator[ExpSpec] {
 		for ti := 0; ti < nTrials; ti++ {
 			tr := TrialSpec{Id: ti, DurationNs: int64(rapid.IntRange(0, 1_000_000_000).Draw(t, "trial duration"))}
 			nGen := rapid.IntRange(0, pick(8, 12)).Draw(t, "generations")
+			arbitraryIds := rapid.IntRange(0, 3).Draw(t, "arbitrary generation ids") == 0
 			for gi := 0; gi < nGen; gi++ {
-				g := GenSpec{Id: gi, TrialId: ti, ExecutedNs: base, DurationNs: int64(rapid.IntRange(0, 50_000_000).Draw(t, "duration")),
+				id := gi
+				if arbitraryIds { // a record assembled by hand or merged from several runs: gaps, repeats, any order
+					id = rapid.IntRange(0, 30).Draw(t, "generation id")
+				}
+				g := GenSpec{Id: id, TrialId: ti, ExecutedNs: base, DurationNs: int64(rapid.IntRange(0, 50_000_000).Draw(t, "duration")),
 					Champion: og.Draw(t, "champion")}
 				base += int64(rapid.IntRange(0, 3_000_000).Draw(t, "time step"))
 				if solvedBias > 0 && rapid.IntRange(0, 5).Draw(t, "solved") < solvedBias {
